@@ -43,3 +43,20 @@ def scheduler(rep, wd, big):
         print("MODEL-DRIFT module=Scheduler observations=%d drift=%d (informational)" % (res["checked"], res["nviol"]), flush=True)
     rep.coverage["growth_maintenance_scheduler"] = info
     return info
+
+
+def wire(rep, wd, frames_path):
+    """Message level of the DHT protocol: Wire.tla + Trace_Wire.tla over the hub's frame log (hosted by C01)."""
+    info = {}
+    r = vlib.tlc_must_hold("Wire", "MC_Wire.cfg", "requests with fresh ids, at most one response per delivered request", workers=4)
+    rep.add_tlc(r, "Wire protocol")
+    x = vlib.tlc_must_fail("Wire", "MC_Wire_twice.cfg", "a node that answers a request twice", workers=2)
+    info["wrong_variant_counterexample"] = x.violated
+    res, _ = vlib.validate_trace("Trace_Wire", "Trace_Wire.cfg", frames_path, os.path.join(wd, "wire_out.json"), timeout=3000)
+    info["frames_checked"] = res["checked"]
+    info["drift"] = res["nviol"]
+    info["drift_samples"] = res["viol"][:5]
+    if res["nviol"]:
+        print("MODEL-DRIFT module=Wire frames=%d drift=%d (informational)" % (res["checked"], res["nviol"]), flush=True)
+    rep.coverage["growth_wire_protocol"] = info
+    return info
